@@ -56,7 +56,7 @@ Definition nonempty {A} (l : list A) : bool := match l with [] => false | _ => t
    rules the model's verdict (tied to the declarative predicates by the C02_rule_iff theorems). *)
 Definition spec_violates (r : N) (S : schema) (W : wdoc) : bool :=
   match r with
-  | 13 => negb (L1b S (erase W) fuel)
+  | 13 => match L1o S (erase W) fuel with Some true => false | _ => true end
   | 9 => negb (acyclic_b (erase W))
   | _ => nonempty (run_rule r S W)
   end.
@@ -87,6 +87,9 @@ Definition check_rule (S : schema) (W : wdoc) (acyc : bool) (r : N) (impl : list
     (* the model must never run out of fuel (OutOfFuel is not a verdict) *)
     if negb (run_complete S (erase W) true fuel) then 1 else
     if acyc then
+      (* the Spec oracle is L1o (C02_L1_oracle_reflects: a verdict of L1o is the truth value of
+         L1_accepts); None = out of fuel is a defect of the check, not a verdict *)
+      if match L1o S (erase W) fuel with None => true | _ => false end then 1 else
       if negb (Bool.eqb (nonempty impl) (spec_violates r S W)) then 2
       else if negb (subset impl (L1_offending S (erase W) fuel)) then 2
       else if same_set impl (run_rule r S W) then 0 else 1
